@@ -5,10 +5,11 @@ PROP = "C18"
 
 def sig(ev):
     c = ev.get("cell", {})
-    return "Cell:%s:%s:%s:%s" % (c.get("side"), c.get("proto"), c.get("srvCert"), c.get("cliCert"))
+    return "Cell:%s:%s:%s:%s:%s%s" % (c.get("side"), c.get("proto"), c.get("srvCert"), c.get("valid"), c.get("cliCert"), ":hist" if ev.get("srv", -1) >= 0 else "")
 
 def run(ck):
     ck.tlc_mc("TransportMC", "TransportMC.cfg", workers=4)
+    ck.tlc_mc("TransportHistMC", "TransportHistMC.cfg", workers=4)
     b = ck.go_build("c18")
     trace, summ = ck.run_driver(b, timeout=900)
     ck.validate(MODULE, trace, sig=sig)
